@@ -29,7 +29,7 @@ RULE = ("byte strings = valid encodings mutated at every field / truncated at ev
         "= distinct case line")
 
 VN_WRAPS = ["coap_ticks", "coap_socket_send", "coap_socket_recv"]
-STATES = ["fresh", "obs", "blk2", "blk1", "client", "osc"]
+STATES = ["fresh", "obs", "blk2", "blk1", "client", "osc", "qfresh", "qb1", "qb2", "cblk2", "cobs", "cq2", "wk"]
 
 
 def hostile_dgram(r, state):
@@ -37,13 +37,16 @@ def hostile_dgram(r, state):
     x = r.random()
     if x < 0.12:
         return gen_wire.rbytes(r, r.choice([0, 1, 2, 3, 4, 5, 6, 8, 13, 40]))
-    tok = {"obs": b"\xaa\xbb", "blk2": b"\xcc\xdd", "blk1": b"\xee\xff", "client": b"\x11\x22"}.get(
+    tok = {"obs": b"\xaa\xbb", "blk2": b"\xcc\xdd", "blk1": b"\xee\xff", "client": b"\x11\x22",
+           "cblk2": b"\x11\x22", "cobs": b"\x11\x22", "cq2": b"\x11\x22", "qb1": b"\xe1\xe2", "qb2": b"\xd1\xd2"}.get(
         state, bytes([r.randrange(256)]))
     if r.random() < 0.3:
         tok = gen_wire.rbytes(r, r.choice([0, 1, 2, 8]))
-    path = {"obs": b"obs", "blk2": b"big", "blk1": b"put"}.get(state, r.choice([b"canary", b"x", b"put", b"big", b"obs"]))
+    path = {"obs": b"obs", "blk2": b"big", "blk1": b"put", "qb1": b"put", "qb2": b"big"}.get(
+        state, r.choice([b"canary", b"x", b"put", b"big", b"obs"]))
+    is_client = state in ("client", "cblk2", "cobs", "cq2")
     mid = r.choice([0x1001, 0x1002, 0x1003, 0x1004, r.randrange(65536)])
-    if state == "client":
+    if is_client:
         ty = r.choice([2, 2, 1, 0, 3])
         code = r.choice([0x45, 0x44, 0x5f, 0x84, 0xa0, 0x00, 0x41, 0x01, r.randrange(256)])
     else:
@@ -81,7 +84,41 @@ def hostile_dgram(r, state):
             v += r.choice([b"", b"\x02", b"\x01", b"\x02\x03", gen_wire.rbytes(r, 7)])
         opts = [o for o in opts if o[0] != 9] + [(9, v[:255])]
         code = r.choice([2, 2, 5, 0x44, 1])
-    if state != "client" or r.random() < 0.2:
+    if state[0] == "q" and r.random() < 0.7:
+        # Q-Block1 / Q-Block2 values: NUM around the burst, M, SZX incl. the reserved 7
+        num = r.choice([0, 1, 2, 3, 4, 5, 9, 10, 11, 46, 47, 100, 0xfffff])
+        v = (num << 4) | (r.choice([0, 1]) << 3) | r.choice([0, 2, 2, 2, 6, 7])
+        bv = v.to_bytes(max(1, (v.bit_length() + 7) // 8), "big") if v else b""
+        opts = [o for o in opts if o[0] not in (19, 31)] + [(19 if state == "qb1" or (state == "qfresh" and r.random() < 0.5) else 31, bv)]
+        code = r.choice([3, 3, 1, 5, 2]) if state != "qb2" else r.choice([1, 1, 5, 3])
+        ty = r.choice([1, 1, 1, 0])
+    if state in ("cblk2", "cobs", "cq2") and r.random() < 0.7:
+        # responses that continue / disturb the client's transfer or observation
+        if state in ("cblk2", "cq2"):
+            num = r.choice([0, 1, 1, 2, 3, 40, 0xfffff])
+            v = (num << 4) | (r.choice([0, 1]) << 3) | r.choice([0, 2, 2, 2, 6, 7])
+            bv = v.to_bytes(max(1, (v.bit_length() + 7) // 8), "big") if v else b""
+            opts = [o for o in opts if o[0] not in (23, 31)] + [(23 if state == "cblk2" else 31, bv)]
+            if r.random() < 0.4:
+                opts.append((28, r.choice([b"", b"\x40", b"\x0b\xb8", b"\xff\xff\xff\xff"])))
+            if r.random() < 0.4:
+                opts.append((4, gen_wire.rbytes(r, r.choice([1, 4, 8]))))
+        else:
+            opts = [o for o in opts if o[0] != 6] + [(6, r.choice([b"", b"\x06", b"\x05", b"\xff\xff\xff", b"\x00\x01"]))]
+        code = r.choice([0x45, 0x45, 0x45, 0x44, 0x84, 0xa0, 0x5f])
+        ty = r.choice([2, 1, 0, 0])
+    if state == "wk":
+        # GET /.well-known/core with hostile filters (the built-in handler parses the query)
+        q = r.choice([b"rt=", b"rt=*", b"=", b"href=%", b"title=\"", b"rt=a*", b"if=%2", b"%", b"*",
+                      b"href=/" + b"a" * r.choice([1, 100, 250]), b"rt=%41%", b"ct=40", b"anchor=" + gen_wire.rbytes(r, 4),
+                      gen_wire.rbytes(r, r.choice([1, 3, 20]))])
+        opts = [o for o in opts if o[0] not in (11, 15)] + [(11, b".well-known"), (11, b"core"), (15, q)]
+        if r.random() < 0.3:
+            opts.append((15, r.choice([b"", b"rt=x", b"&"])))
+        if r.random() < 0.3:
+            opts.append((23, r.choice([b"", b"\x02", b"\x16", b"\x07", b"\xff\xff\xf2"])))
+        code = 1
+    elif not is_client or r.random() < 0.2:
         opts.append((11, path))
     if r.random() < 0.15:
         # values full of characters that the path / query reconstruction has to escape (sizes of
@@ -96,7 +133,7 @@ def hostile_dgram(r, state):
         opts += big
         if r.random() < 0.7:
             tok = gen_wire.rbytes(r, 8)
-        if r.random() < 0.6 and state != "client":
+        if r.random() < 0.6 and not is_client:
             opts = [o for o in opts if o[0] != 6] + [(6, b"")]
             code = 1
     opts.sort(key=lambda o: o[0])
@@ -127,7 +164,7 @@ def summary_of(err):
     return re.sub(r"\s+", " ", err)[:300]
 
 
-def block_sequence(r):
+def block_sequence(r, optnum=27):
     """Block1 uploads to /put with hostile NUM orders (descending, gaps, repeats), M mostly set,
     full-size blocks: drives the received-block range array and the reassembly buffer"""
     szx = r.choice([0, 2, 2, 2, 6])
@@ -151,14 +188,15 @@ def block_sequence(r):
         m = 0 if (i == n - 1 and r.random() < 0.5) else 1
         v = (max(num, 0) << 4) | (m << 3) | szx
         bv = v.to_bytes(max(1, (v.bit_length() + 7) // 8), "big")
-        opts = [(11, b"put"), (27, bv)]
+        opts = [(11, b"put"), (optnum, bv)]
         if r.random() < 0.3:
             opts.append((60, r.choice([b"", b"\x40", b"\x01\x00", b"\xff\xff\xff\xff"])))
         if r.random() < 0.3:
             opts.append((292, gen_wire.rbytes(r, r.choice([0, 1, 8]))))
         opts.sort(key=lambda o: o[0])
         pl = gen_wire.rbytes(r, size if m or r.random() < 0.5 else r.randrange(1, size + 1))
-        out.append(gen_wire.py_serialize("udp", r.choice([0, 0, 1]), r.choice([3, 3, 2]), 0x2000 + i,
+        out.append(gen_wire.py_serialize("udp", r.choice([0, 0, 1]) if optnum == 27 else r.choice([1, 1, 0]),
+                                         r.choice([3, 3, 2]), 0x2000 + i,
                                          tok if r.random() < 0.8 else gen_wire.rbytes(r, 2), opts, pl))
     return out
 
@@ -333,8 +371,8 @@ def main(run):
     ncorp = len(cases)
     for i in range(700 if quick else 20000):
         st = STATES[i % len(STATES)]
-        if st in ("fresh", "blk1", "osc") and i % 4 == 0:
-            ds = block_sequence(r)
+        if st in ("fresh", "blk1", "osc", "qfresh") and i % 4 == 0:
+            ds = block_sequence(r, 19 if st == "qfresh" else 27)
         else:
             ds = [hostile_dgram(r, st) for _ in range(r.choice([1, 1, 2, 3, 4, 6]))]
         cases.append("hz %s %s" % (st, " ".join(d.hex() if d else "-" for d in ds)))
@@ -371,6 +409,11 @@ def main(run):
                 summary_of(err) if err else o)
         elif "canary=ok" not in o:
             why = "endpoint no longer answers a well-formed request after hostile input: " + o[-120:]
+        elif re.search(r"maxbody=(\d+)", o) and \
+                int(re.search(r"maxbody=(\d+)", o).group(1)) > sum(len(t) // 2 for t in toks[2:]) + 128:
+            why = ("a request handler was given a body of %s bytes although the peer sent %d bytes in all "
+                   "(bytes never received handed out as data)" %
+                   (re.search(r"maxbody=(\d+)", o).group(1), sum(len(t) // 2 for t in toks[2:])))
         else:
             fs = re.findall(r"i(\d+)=(\d+):(\d+):(\S+)", o)
             for (idx, hc, nr, first) in fs:
@@ -453,6 +496,64 @@ def main(run):
                     if len(stream) > 1 else []
                 cuts = gen_stream.cuts_to_token(pts, len(stream))
             tl.append("ws %d %s %s" % (r.choice([0, 0, 1]), stream.hex(), cuts))
+    # WebSocket CLIENT session (the peer is a hostile server): response handshake, unmasked
+    # frames, mutations; and on both roles frames whose 7+16 / 7+64 bit length fields take their
+    # extreme values (top bit set, all ones, just above every power of two) followed by 0..5
+    # bytes in the same arrival
+    if hasattr(gen_stream, "gen_wsc_stream"):
+        canon_c = None
+        for i in range(200 if quick else 6000):
+            stream, meta = gen_stream.gen_wsc_stream(r, small=(i % 3 == 0))
+            if canon_c is None and meta["hs"] == "ok":
+                canon_c = stream[:meta["hslen"]]
+            x = r.random()
+            if x < 0.45 and len(stream) > meta["hslen"] + 1:
+                body = stream[meta["hslen"]:]
+                for _ in range(r.choice([1, 2, 3])):
+                    body = gen_wire.mutate(r, body)
+                stream = stream[:meta["hslen"]] + body
+            elif x < 0.55:
+                stream = gen_wire.mutate(r, stream)
+            y = r.random()
+            if y < 0.35:
+                cuts = "-"
+            elif y < 0.5:
+                cuts = "x1"
+            else:
+                pts = sorted(set(r.randrange(1, len(stream)) for _ in range(r.choice([1, 2, 3, 5])))) \
+                    if len(stream) > 1 else []
+                cuts = gen_stream.cuts_to_token(pts, len(stream))
+            tl.append("wsc 0 %s %s" % (stream.hex(), cuts))
+        canon_s = None
+        for _ in range(50):
+            st, meta = gen_stream.gen_ws_stream(r, small=True)
+            if meta.get("hs") in ("ok", None) and meta.get("hslen"):
+                canon_s = st[:meta["hslen"]]
+                if meta.get("hs") == "ok":
+                    break
+        ext = [1 << 63, (1 << 63) + 5, (1 << 64) - 1, (1 << 64) - 14, (1 << 62) + 1, (1 << 32),
+               (1 << 32) - 1, (1 << 31), (1 << 31) - 1, 65536, 0xFFFFFFFFFFFFFFF2]
+        okmsg = gen_wire.py_serialize("ws", 0, 69, 0, b"\x01", [], b"x")
+        for sz in ext:
+            for ntrail in (0, 1, 4, 5):
+                for role, hsb in (("wsc", canon_c), ("ws", canon_s)):
+                    if hsb is None:
+                        continue
+                    for op in (0x82, 0x02, 0x89):
+                        mb = 0x80 if role == "ws" else 0
+                        h = bytes([op, mb | 127]) + sz.to_bytes(8, "big") + (b"\x01\x02\x03\x04" if mb else b"")
+                        st = hsb + gen_stream.ws_frame(okmsg, mask=(b"\x00\x00\x00\x00" if mb else None)) \
+                            + h + gen_wire.rbytes(r, ntrail)
+                        for cuts in ("-", gen_stream.cuts_to_token([len(hsb)], len(st))):
+                            tl.append("%s 0 %s %s" % (role, st.hex(), cuts))
+        for sz16 in (0xFFFF, 0x8000, 1473, 126, 0):
+            for role, hsb in (("wsc", canon_c), ("ws", canon_s)):
+                if hsb is None:
+                    continue
+                mb = 0x80 if role == "ws" else 0
+                h = bytes([0x82, mb | 126]) + sz16.to_bytes(2, "big") + (b"\x01\x02\x03\x04" if mb else b"")
+                st = hsb + h + gen_wire.rbytes(r, 3)
+                tl.append("%s 0 %s -" % (role, st.hex()))
     # one driver process per 250 streams: the driver keeps a few descriptors per case open and
     # libcoap's WebSocket close path uses select(), i.e. FD_SET, which is only defined for
     # descriptors below FD_SETSIZE (1024) - a limit of the library that is not peer-controlled
